@@ -177,7 +177,20 @@ pub fn eval_encode_sim(alist: &str, punct: &Option<String>, input: &[u8], seed: 
         for (kname, n) in fs.fired() {
             stats.add(&format!("faults_fired/simfs: {}", kname), n);
         }
-        let hard = fs.hard_fault_fired();
+        let log = fs.log();
+        // A fault on `flush`/`sync` of the raw file is *advisory*: `File::flush` does nothing and
+        // cannot fail on a real system, std has no retry convention for these calls (`BufWriter::flush`
+        // hands an `Interrupted` from the inner flush straight to the caller), and the property says
+        // nothing about durability. So when such a fault is the only one that took effect both
+        // outcomes are right: an error (judged like any failed run), or success with exactly the
+        // codewords in the file. (Preserving rewrites C20-p5a-1/-2 flush or sync at the end and
+        // hand the error on; an earlier version of this check called that a violation.)
+        let advisory = log.iter().any(|o| o.injected.is_some() && matches!(o.kind, OpKind::Flush | OpKind::Sync));
+        let hard_rw = log.iter().any(|o| o.injected.as_ref().is_some_and(|f| f.is_hard()) && !matches!(o.kind, OpKind::Flush | OpKind::Sync));
+        let hard = hard_rw || (advisory && matches!(o, Outcome::Err(_)));
+        if advisory {
+            stats.inc("encode run hit by an advisory fault (flush/sync of the raw file)");
+        }
         let label = || format!("{} under the file-fault plan {}", what, plan.to_json());
         if hard {
             stats.inc("encode run hit by a hard I/O fault");
